@@ -53,6 +53,8 @@ type Ctx struct {
 	known    []KnownFinding
 	Params   map[string]string // world parameters (tier, campaign)
 	Scratch  string            // scratch directory for this run (on /dev/shm)
+	unordered []string
+	PreLog    []func() // run before every ordered log line: worlds emit pending net effects through LogUnordered
 }
 
 func newCtx(prop string, tape *Tape, trace bool, known []KnownFinding) *Ctx {
@@ -64,7 +66,33 @@ func newCtx(prop string, tape *Tape, trace bool, known []KnownFinding) *Ctx {
 // Logf appends a line to the canonical event log. It never draws from the
 // tape and never reads a real clock.
 func (c *Ctx) Logf(format string, a ...any) {
-	s := fmt.Sprintf(format, a...)
+	c.flushUnordered()
+	c.logLine(fmt.Sprintf(format, a...))
+}
+
+// LogUnordered records a line whose position relative to the other unordered
+// lines of the same simulator step is not defined (e.g. callbacks fired while
+// the implementation iterates over a Go map). The batch is sorted before it
+// enters the canonical log.
+func (c *Ctx) LogUnordered(format string, a ...any) {
+	c.unordered = append(c.unordered, fmt.Sprintf(format, a...))
+}
+
+func (c *Ctx) flushUnordered() {
+	for _, f := range c.PreLog {
+		f()
+	}
+	if len(c.unordered) == 0 {
+		return
+	}
+	sort.Strings(c.unordered)
+	for _, l := range c.unordered {
+		c.logLine(l)
+	}
+	c.unordered = c.unordered[:0]
+}
+
+func (c *Ctx) logLine(s string) {
 	c.h.Write([]byte(s))
 	c.h.Write([]byte{'\n'})
 	if c.Trace {
@@ -73,7 +101,7 @@ func (c *Ctx) Logf(format string, a ...any) {
 }
 
 // LogHash is the hash of the canonical event log so far.
-func (c *Ctx) LogHash() uint64 { return c.h.Sum64() }
+func (c *Ctx) LogHash() uint64 { c.flushUnordered(); return c.h.Sum64() }
 
 // Fault counts one injected fault that actually fired.
 func (c *Ctx) Fault(kind string) { c.Stats.Faults[kind]++ }
